@@ -6,9 +6,10 @@
    state [s] (handler argument parsing included); [repaired] selects the code after the six fix:
    commits of repo_patches/C07-*.  [RepoInv] (Model/RepoInv.v): per live repo a single root, every
    parent has a smaller version id (no cycle) and is committed, children mirror parents, no
-   repeated link, every named branch is linear; uuidToVersion/versionToUUID are mutually inverse,
-   total on nodes and below the counters, NilUUID names nothing, and the head cache points at the
-   leaf of every named branch.  [oracle_ok s r]: the UUIDs the request lets dvid.NewUUID generate
+   repeated link, every named branch is linear and its leaf is its newest node;
+   uuidToVersion/versionToUUID are mutually inverse, total on nodes and below the counters, NilUUID
+   names nothing, and the head cache points at the newest node of every branch (the default branch
+   included).  [oracle_ok s r]: the UUIDs the request lets dvid.NewUUID generate
    are well formed, pairwise distinct and not in use. *)
 From DV Require Import Base.Prelude Model.Repo Model.RepoInv Proofs.Repo.
 From Coq Require Import String Ascii.
@@ -76,17 +77,33 @@ Theorem C07_second_newversion_refused : forall fx s p a f i r v n c cn,
 Proof. exact newversion_sister_refused. Qed.
 Print Assumptions C07_second_newversion_refused.
 
-(* master after a merge (merge nodes carry the empty branch name): the node merged from gets a second
-   child on branch "", root:master keeps naming the newversion lineage, and root:master~n depends on
-   Go's map iteration order -- the model has all the answers the server gives *)
+(* every branch, the default one included, has one head: the newest node carrying its name, and that
+   is what the head cache (uuid:branch) holds; for a named branch it is the one leaf of the chain *)
+Theorem C07_head_is_newest : forall s i R r v n, RepoInv s ->
+  st_roots s !! i = Some R -> st_repos s !! i = Some r -> r_nodes r !! v = Some n ->
+  branch_newest r v n -> st_heads s !! head_key (r_root r) (n_branch n) = Some (n_uuid n).
+Proof. intros s i R r v n I. exact (inv_head_newest s I i R r v n). Qed.
+Print Assumptions C07_head_is_newest.
+
+Theorem C07_named_leaf_is_newest : forall s i R r v n, RepoInv s ->
+  st_roots s !! i = Some R -> st_repos s !! i = Some r -> r_nodes r !! v = Some n ->
+  n_branch n <> "" -> branch_leaf r n -> branch_newest r v n.
+Proof. intros s i R r v n I HR Hr. destruct (inv_root_eq s i R r I HR Hr) as [_ W]. exact (wf_leaf_newest r W v n). Qed.
+Print Assumptions C07_named_leaf_is_newest.
+
+(* the default branch after a merge (merge nodes carry the empty branch name): the node merged from
+   gets a second child on branch "", the head of the default branch moves to the merge node (the
+   newest node), and root:master, root:master~n are functions of the DAG *)
 Example C07_master_after_merge :
   let s0 := run repaired init c02dag in
   let s1 := fst (step repaired s0 (RMerge (U u2) true [U u2; U u3] u5)) in
   snd (step repaired s0 (RNewVersion (U u2) "" u5)) = Fail /\
   snd (step repaired s0 (RMerge (U u2) true [U u2; U u3] u5)) = Done u5 /\
   snd (step repaired s1 (RNewVersion (U u2) "" u6)) = Fail /\
-  matching s1 (U (u1 ++ ":master")) = Done u4 /\
-  List.map (fun p => matching s1 (mkUref (u1 ++ ":master~0") p)) [0; 1; 3]%nat = [Fail; Done u5; Done u4].
+  matching s0 (U (u1 ++ ":master")) = Done u4 /\
+  matching s1 (U (u1 ++ ":master")) = Done u5 /\
+  matching s1 (U (u1 ++ ":master~0")) = Done u5 /\
+  matching s1 (U (u1 ++ ":master~1")) = Done u2.
 Proof. exact master_after_merge_example. Qed.
 
 (* ---- the code as found (each theorem switches off one repair only) ---- *)
@@ -127,7 +144,8 @@ Theorem C07_tag_commits_on_error_refuted :
 Proof. exact tag_commits_on_error_refuted. Qed.
 Print Assumptions C07_tag_commits_on_error_refuted.
 
-(* roots "xa" and "xab": "xab:master" resolves to a node of the repo rooted at "xa" *)
+(* roots "xa" and "xab": caching the heads of repo "xa" drops the keys of repo "xab" too and files its
+   branch "bmaster" under the key of the other repo's master: "xab:master" names a node of repo "xa" *)
 Theorem C07_head_key_collision_refuted :
   oracles_ok only_root_unvalidated init collide /\
   matching (run only_root_unvalidated init collide) (U "xab:master") = Done u4 /\
